@@ -210,8 +210,9 @@ def main():
             assumptions=props.ASSUMPTIONS.get(prop, []),
             wall_s=round(wall, 2), violations=len(remaining),
         )
-        os.makedirs(os.path.join(VERIF, "evidence"), exist_ok=True)
-        json.dump(ev, open(os.path.join(VERIF, "evidence", prop + ".json"), "w"), indent=1)
+        evdir = os.environ.get("VERIF_EVIDENCE_DIR", os.path.join(VERIF, "evidence"))
+        os.makedirs(evdir, exist_ok=True)
+        json.dump(ev, open(os.path.join(evdir, prop + ".json"), "w"), indent=1)
         if violation:
             for f in (concrete or soft)[:3]:
                 print("  failing: [%s] %s" % (f["kind"], str(f["what"])[:400]))
